@@ -52,6 +52,10 @@ MAX_LOOP = 64
 MAX_DEPTH = 120
 
 
+#: (repo-relative file, line) of every statement of real /repo code the interpreter executed in this process (statement coverage of the
+#: symbolic execution: a line of a function under contract that is never reached is a line no obligation speaks about)
+LINES_EXECUTED: set = set()
+
 class _Return(Exception):
     def __init__(self, v):
         self.v = v
@@ -941,6 +945,9 @@ class Interp:
     def exec_stmt(self, st, env):
         if self.stmt_hook:
             self.stmt_hook(self, st, env)
+        m_ = env.module
+        if m_ is not None and not self.ctx.spec:
+            LINES_EXECUTED.add((getattr(m_, "relpath", None) or m_.name, st.lineno))
         k = type(st)
         if k is ast.Expr:
             if isinstance(st.value, ast.Constant):
